@@ -133,6 +133,29 @@ func (c *Ctx) corpusC03() {
 	})
 	c.noteFloatOnly("laplacian", m3, modeling.PositionAttribute, 2)
 	c.emitOp03(r, m3)
+	// (4) Laplacian on the line topologies: closed loop (the closing edge last-first matters), open strip, segment list,
+	// loops with 1 and 2 indices, and the EMPTY loop (clean tree: runtime panic in VertexNeighborTable, compared as "panic")
+	lp := []vector3.Float64{vector3.New(0., 0., 0.), vector3.New(4., 0., 0.), vector3.New(4., 4., 0.), vector3.New(0., 4., 0.), vector3.New(8., 8., 8.)}
+	for _, cs := range []struct {
+		topo modeling.Topology
+		idx  []int
+	}{
+		{modeling.LineLoopTopology, []int{0, 1, 2, 3}}, {modeling.LineLoopTopology, []int{2, 0, 3}}, {modeling.LineLoopTopology, []int{1, 3}},
+		{modeling.LineLoopTopology, []int{2}}, {modeling.LineLoopTopology, []int{}},
+		{modeling.LineStripTopology, []int{0, 1, 2, 3}}, {modeling.LineTopology, []int{0, 1, 2, 3}}, {modeling.LineTopology, []int{0, 1, 1, 2, 3, 0}},
+	} {
+		m := modeling.NewMesh(cs.topo, cs.idx).SetFloat3Attribute(modeling.PositionAttribute, lp)
+		for _, it := range []int{1, 3} {
+			it := it
+			r := runOp("laplacian", fmt.Sprintf("%s %d %s %s", modeling.PositionAttribute, it, F(0.5), meshStr(m)), false, func() []modeling.Mesh {
+				return one(meshops.LaplacianSmooth(m, modeling.PositionAttribute, it, 0.5))
+			})
+			c.Note("corpus:laplacian:" + strings.ReplaceAll(cs.topo.String(), " ", "") + ":" + r.status)
+			c.emitOp03(r, m)
+		}
+	}
+	// (5) the plain FilterFloatN functions and their Transformers on every topology: only point clouds are accepted
+	c.filterTopologySweep(func(r opRun, m modeling.Mesh) { c.emitOp03(r, m) })
 }
 
 // branchingHistories03: every result keeps its snapshot from creation time; after later derivations from the same base the
